@@ -366,6 +366,12 @@ def _r5(ctx):
             r5.ok('const-index|%s' % k.split('::')[-1], detail='indexes 0..%d of a %d-byte read' % (worst, n_const))
         else:
             r5.bad('const-index|%s' % k.split('::')[-1], 'indexes up to %s into a slice of %s bytes' % (worst, n_const), loc=fn.loc(bc[0]))
+    rule_save_bookkeeping(ctx, r5)
+
+
+def rule_save_bookkeeping(ctx, r5):
+    """RetainManager::save_snapshot: bookkeeping only after the store's Ok edge (shared with C09)"""
+    fx, cg = ctx.fx, ctx.cg
     # RetainManager::save_snapshot: bookkeeping only after the store's Ok edge
     sv = fx.fns.get(R + 'RetainManager::save_snapshot')
     if sv is None:
@@ -385,6 +391,18 @@ def _r5(ctx):
                 for fld in ('RetainManager.last_snapshot', 'RetainManager.dirty', 'RetainManager.last_save'):
                     if fn.assigns_field(b, lambda f, fld=fld: f.endswith(fld)) and not (pos and guarded(fn, b, pos | _edges_not_via(fn, sb))):
                         bad.append((b, fld))
+            # ... and not before it either: a write (assignment or `&mut field` handed to a call such as Option::insert)
+            # on a path that goes on to call store() records the snapshot as saved before it was written
+            for b in fn.g:
+                if sb not in fn.reach_after(b) and b != sb:
+                    continue
+                for fld in ('RetainManager.last_snapshot', 'RetainManager.dirty', 'RetainManager.last_save'):
+                    wrote = fn.assigns_field(b, lambda f, fld=fld: f.endswith(fld)) and b != sb
+                    for s_ in fn.bbs[b]['s']:
+                        if s_[0] == 'A' and s_[2][0] == 'ref' and 'Mut' in s_[2][1] and place_fields(s_[2][2]) and place_fields(s_[2][2])[-1].endswith(fld):
+                            wrote = True
+                    if wrote and b != sb:
+                        bad.append((b, fld + ' (before the store call)'))
             if bad:
                 r5.bad('save-bookkeeping', 'save_snapshot updates %s although store() failed: the failed write is remembered as saved and later saves of the same values are skipped' % bad[0][1].split('.')[-1], loc=fn.loc(bad[0][0]))
             else:
